@@ -124,12 +124,21 @@ def complete (v : Variant) (s : WState) : Except Err WState :=
   | .error e => .error e
   | .ok s1 => flushIndices v s1
 
-/-- a new `WriteableIndexedFieldArray` on the arrays `ix`, `vals` (what `field.data` creates), the parts written one
-    `write_part` call each, then `complete()` -/
-def writeOnto (v : Variant) (c : Nat) (ix : Arr Nat) (vals : Arr Byte) (parts : List (List Bytes)) : Except Err WState :=
-  match foldE (writePart v) (WState.init c ix vals) parts with
+/-- one round on a writer object: the parts written one `write_part` call each, then `complete()` -/
+def writeRound (v : Variant) (s : WState) (parts : List (List Bytes)) : Except Err WState :=
+  match foldE (writePart v) s parts with
   | .error e => .error e
-  | .ok s => complete v s
+  | .ok s1 => complete v s1
+
+/-- a new `WriteableIndexedFieldArray` on the arrays `ix`, `vals` (what `field.data` creates), then one round -/
+def writeOnto (v : Variant) (c : Nat) (ix : Arr Nat) (vals : Arr Byte) (parts : List (List Bytes)) : Except Err WState :=
+  writeRound v (WState.init c ix vals) parts
+
+/-- several rounds on a field fresh from its constructor. `rewrap = true`: every round uses a new writer object on the
+    field's arrays (`field.writeable().data`, or the field of a reopened dataset); `false`: the same object goes on. -/
+def writeRounds (v : Variant) (c : Nat) (h5 : Bool) (rewrap : Bool) (rounds : List (List (List Bytes))) : Except Err WState :=
+  foldE (fun s parts => writeRound v (if rewrap then WState.init c s.indices s.values else s) parts)
+    (WState.init c (Arr.fresh h5) (Arr.fresh h5)) rounds
 
 /-- the same on a field fresh from its constructor, memory-backed or HDF5 -/
 def writeField (v : Variant) (c : Nat) (h5 : Bool) (parts : List (List Bytes)) : Except Err WState :=
